@@ -414,9 +414,9 @@ def _checkBlockHeight(b):
             )
         )
 
-    if b.getHeight() < 0.0:
+    if b.getHeight() <= 0.0:
         raise ArithmeticError(
-            "Block {0:s} ({1:s}) has a negative height! ({2:.12e})".format(
+            "Block {0:s} ({1:s}) has a non-positive height! ({2:.12e})".format(
                 b.name, str(b.p.flags), b.getHeight()
             )
         )
